@@ -349,9 +349,14 @@ impl<'a> Scope<'a> {
             }
             return format!("{p}:{}", q.local);
         }
-        for f in &self.frames {
-            if let Some((p, _)) = f.iter().find(|(_, u)| *u == q.ns) {
-                return format!("{p}:{}", q.local);
+        // innermost declaration first; a prefix that an inner frame rebinds to ANOTHER namespace is
+        // shadowed there and cannot be used for the outer one
+        for (i, f) in self.frames.iter().enumerate() {
+            for (p, u) in f.iter() {
+                let shadowed = self.frames[..i].iter().any(|inner| inner.iter().any(|(ip, iu)| ip == p && iu != u));
+                if *u == q.ns && !shadowed {
+                    return format!("{p}:{}", q.local);
+                }
             }
         }
         if self.default_ns == Some(q.ns.as_str()) {
